@@ -636,6 +636,12 @@ def run(chk, P):
     chk.floor('R15.10', 2)
     r15_11(chk, P)
     chk.floor('R15.11', 2)
+    from rules import c05
+    chk.rule('R15.12', 'a managed set-up that was accepted encodes without leaving the block: the packet-size search of '
+             'vorbis_bitrate_addblock keeps every packetblob subscript inside the array (same obligations as R05.11; the hard '
+             'minimum / maximum a set-up may carry drive the search to either end)')
+    c05.r05_11(common.Proxy(chk, 'R15.12'), P, rule='R15.12')
+    chk.floor('R15.12', 6)
     r15_2(chk, P)
     chk.floor('R15.2', 8)
     r15_3(chk, P)
